@@ -67,9 +67,32 @@ fn perturbed(r: &mut Rng, root: &R, valid: &[Vec<PathEl>], text: &[u8]) -> Vec<V
                 out.push(q.clone());
                 q.pop();
                 q.push(PathEl::Key("a".into()));
-                out.push(q);
+                out.push(q.clone());
+                // a key that looks like an index (a path split from a dotted string only has
+                // strings): still a key, an array has no members
+                q.pop();
+                q.push(PathEl::Key(format!("{}", r.below(xs.len() as u64 + 2))));
+                out.push(q.clone());
+                q.pop();
+                q.push(PathEl::Key("0".into()));
+                out.push(q.clone());
+                // and a valid step through it continued behind
+                if !xs.is_empty() {
+                    q.pop();
+                    q.push(PathEl::Key("0".into()));
+                    q.push(PathEl::Idx(0));
+                    out.push(q);
+                }
             }
-            K::Obj(_) => {
+            K::Obj(ms) => {
+                // an index that looks like a member name ("0", "1" are legal names)
+                if let Some((k, _)) = ms.iter().find(|(k, _)| k.key_str().map(|t| t.parse::<usize>().is_ok()).unwrap_or(false)) {
+                    if let Some(n) = k.key_str().and_then(|t| t.parse::<usize>().ok()) {
+                        let mut q2 = p.clone();
+                        q2.push(PathEl::Idx(n));
+                        out.push(q2);
+                    }
+                }
                 q.push(PathEl::Key("__missing__".into()));
                 out.push(q.clone());
                 q.pop();
